@@ -5,6 +5,7 @@ import (
 	"net"
 	"strconv"
 	"strings"
+	"unicode"
 	"unicode/utf8"
 
 	"github.com/facebookincubator/dns/dnsrocks/dnsdata/quote"
@@ -185,6 +186,19 @@ var fixedFiles = [][]string{
 		"%ef,::ffff:0:0/96,zz",
 		".example.net,10.0.0.1,a,300",
 	},
+}
+
+// files the compiler rejects; the first two have the bad line first
+var badFiles = [][]string{
+	{"%,1.2.3.0/24,m1", "+c.example.com,1.2.3.4"},
+	{"Zbad.example.com,a.ns.bad.example.com,dns.bad.example.com,,,,,,,,\\x", "+c.example.com,1.2.3.4"},
+	{"+a.example.com,1.2.3.4", "%ab,1.2.3.0/33,m1", "+c.example.com,1.2.3.4"},
+	{"+a.example.com,1.2.3.4", "+c.example.com,1.2.3.4,,,\\x"},
+}
+
+var badLines = []string{
+	"%,1.2.3.0/24,m1", "%abc,1.2.3.0/24,m1", "%ab,1.2.3.0/33,m1", "%ab,nonsense,m1", "%\\x,1.2.3.0/24,m1",
+	"Zbad.example.com,a.ns.bad.example.com,dns.bad.example.com,,,,,,,,\\x", "+x.example.com,1.2.3.4,,,\\x", "Xbogus.example.com,1.2.3.4",
 }
 
 type gen struct{ r *hlib.Rng }
@@ -777,15 +791,11 @@ func canonNet(s string) string {
 	return s + "/host"
 }
 
-// printOracle reports strconv.IsPrint for the runes >= 0x80 of the unquoted fields
-func printOracle(line []byte) [][2]int {
+// runeOracle reports strconv.IsPrint and unicode.ToLower for the runes >= 0x80 of the unquoted fields
+func runeOracle(lines [][]byte) [][3]int {
 	seen := map[rune]bool{}
-	res := [][2]int{}
-	for _, fld := range splitFields(line) {
-		u, err := quote.Bunquote(append([]byte{}, fld...))
-		if err != nil {
-			u = fld
-		}
+	res := [][3]int{}
+	add := func(u []byte) {
 		for i := 0; i < len(u); {
 			ru, w := utf8.DecodeRune(u[i:])
 			i += w
@@ -795,8 +805,18 @@ func printOracle(line []byte) [][2]int {
 				if strconv.IsPrint(ru) {
 					p = 1
 				}
-				res = append(res, [2]int{int(ru), p})
+				res = append(res, [3]int{int(ru), p, int(unicode.ToLower(ru))})
 			}
+		}
+	}
+	for _, line := range lines {
+		for _, fld := range splitFields(line) {
+			u, err := quote.Bunquote(append([]byte{}, fld...))
+			if err != nil {
+				u = fld
+			}
+			add(u)
+			add(fld)
 		}
 	}
 	return res
